@@ -7,6 +7,8 @@ from props.common import differential, add_corr
 def conservation(line):
     """the property itself, evaluated on the implementation's counters (independent of the model)"""
     parts = line.split(" || ")
+    if parts[0].startswith("conserved") or parts[0].startswith("NOT-CONSERVED"):
+        return None if line == "conserved || upstream_conserved=1 || gauges=ok" else "after a connection reset with replies pending: " + line[:300]
     f = dict(x.split("=") for x in parts[0].split(" "))
     f = {k: int(v) for k, v in f.items()}
     if f["cx_active"] != 0:
